@@ -249,7 +249,7 @@ func init() {
 		m := getModel()
 		defer putModel(m)
 		rng := newRand(15)
-		for i := 0; i < tierN(120, 6000); i++ {
+		for i := 0; i < tierN(120, 6000) && !expired(); i++ {
 			c15Case(r, m, rng, i)
 		}
 		r.Validated = r.Evaluations
